@@ -432,4 +432,105 @@ theorem atomic_fail {st : State} {r : Except Fail State} {e : Fail} {st' : State
   · simp at h
   · simp at h; exact h.2.symm
 
+
+/-! ### the topology family is written by `writeTopology` only -/
+
+theorem lockGhostKeys_topo {ks : List Id} {st st' : State} {t : Id}
+    (h : lockGhostKeys ks st t = .ok st') : st'.topo = st.topo := by
+  induction ks generalizing st with
+  | nil => simp [lockGhostKeys] at h; cases h; rfl
+  | cons k r ih =>
+    simp only [lockGhostKeys] at h
+    split at h
+    · rename_i s1 h1
+      rw [ih h]
+      unfold lockGhostKey at h1
+      split at h1
+      · cases h1; rfl
+      · split at h1
+        · cases h1; rfl
+        · cases h1
+    · cases h
+
+theorem writeUTXO_topo {st st' : State} {tx : Tx} {ts idx : Nat} {o : Output}
+    (h : writeUTXO st tx ts idx o = .ok st') : st'.topo = st.topo := by
+  unfold writeUTXO at h
+  split at h
+  · cases h
+  · rename_i st1 h1
+    have f1 := lockGhostKeys_topo h1
+    simp only at h
+    split at h
+    all_goals first
+      | (cases h; simp [f1])
+      | (unfold writeWithdrawalClaim at h
+         split at h
+         · cases h
+         · split at h
+           · cases h; simp [f1]
+           · cases h)
+
+theorem writeOutputs_topo {outs : List Output} {idx : Nat} {st st' : State} {tx : Tx} {ts : Nat}
+    (h : writeOutputs outs idx st tx ts = .ok st') : st'.topo = st.topo := by
+  induction outs generalizing st idx with
+  | nil => simp [writeOutputs] at h; cases h; rfl
+  | cons o r ih =>
+    simp only [writeOutputs] at h
+    split at h
+    · split at h
+      · rename_i s1 h1
+        rw [ih h, writeUTXO_topo h1]
+      · cases h
+    · exact ih h
+
+theorem finalizeTransaction_topo {cap : Id → Nat} {st st' : State} {tx : Tx} {snap ts : Nat}
+    (h : finalizeTransaction cap st tx snap ts = .ok st') : st'.topo = st.topo := by
+  unfold finalizeTransaction at h
+  split at h
+  · cases h; rfl
+  · simp only at h
+    split at h
+    · cases h
+    · split at h
+      · cases h
+      · rename_i st2 h2
+        have e2 : st2.topo = st.topo := by
+          split at h2
+          · unfold writeAssetInfo at h2
+            split at h2
+            · cases h2; rfl
+            · split at h2
+              · cases h2; rfl
+              · cases h2
+          · cases h2; rfl
+        split at h
+        · cases h
+        · split at h
+          · cases h
+          · rename_i st3 h3
+            have e3 := writeOutputs_topo h3
+            unfold writeTotal at h
+            split at h
+            · cases h
+            · split at h
+              · cases h
+              · cases h; rw [e3, e2]
+              · split at h
+                · cases h
+                · cases h; simp [e3, e2]
+
+theorem finalizeAll_topo {cap : Id → Nat} {l : List Id} {st st' : State} {snap : Snap}
+    (h : finalizeAll cap l st snap = .ok st') : st'.topo = st.topo := by
+  induction l generalizing st with
+  | nil => simp [finalizeAll] at h; cases h; rfl
+  | cons t r ih =>
+    simp only [finalizeAll] at h
+    split at h
+    · cases h
+    · split at h
+      · cases h
+      · rename_i s1 h1
+        rw [ih h]
+        simpa using finalizeTransaction_topo h1
+
 end Mixin.Ledger
